@@ -1,6 +1,7 @@
 package props
 
 import (
+	"bufio"
 	"bytes"
 	"context"
 	"errors"
@@ -29,6 +30,12 @@ type cAttempt struct {
 	End          string `json:"end,omitempty"` // "eof" | "rerr"
 	CancelAtOff  int    `json:"cancel_at_off"` // -1: never; x: once x bytes were delivered the next body Read cancels the context and returns ctx.Err()
 	CancelInRT   bool   `json:"cancel_in_rt,omitempty"`
+	// RTErrAfterCancel: with CancelInRT, RoundTrip returns a transport error of its own (not the
+	// context's) after the context ended.
+	RTErrAfterCancel bool `json:"rt_err_after_cancel,omitempty"`
+	// Oversized: the stream ends with an event larger than the connection's buffer limit
+	// (cScript.BufMax): the read fails with bufio.ErrTooLong, which is a lost connection like any other.
+	Oversized bool `json:"oversized,omitempty"`
 	Latency      int64  `json:"latency,omitempty"` // virtual ns spent inside RoundTrip
 	Cuts         []int  `json:"cuts,omitempty"`
 	ByteReads    bool   `json:"byte_reads,omitempty"`
@@ -54,6 +61,8 @@ type cScript struct {
 	// Deadline: the request context ends through a (virtual) deadline instead of cancel();
 	// every "cancel" action of the script then waits until the deadline has passed.
 	Deadline bool `json:"deadline,omitempty"`
+	// BufMax > 0: Connection.Buffer(nil, BufMax)
+	BufMax int `json:"buf_max,omitempty"`
 }
 
 // blockBody is a response body that never delivers anything until it is closed: a stream
@@ -231,6 +240,11 @@ func runClient(t *testing.T, sc *cScript) (obs *cObs) {
 			}
 			if sp.CancelInRT {
 				cancel()
+				if sp.RTErrAfterCancel {
+					e := &transportErr{a}
+					obs.TErrs[a] = e
+					return nil, e
+				}
 				return nil, ctx.Err()
 			}
 			if err := r.Context().Err(); err != nil {
@@ -260,6 +274,10 @@ func runClient(t *testing.T, sc *cScript) (obs *cObs) {
 				}
 				return &http.Response{Status: http.StatusText(status), StatusCode: status, Proto: "HTTP/1.1", ProtoMajor: 1, ProtoMinor: 1,
 					Header: h, Body: &blockBody{ch: make(chan struct{})}, Request: r, ContentLength: -1}, nil
+			}
+			if sp.Oversized {
+				sp.Stream += "data: " + strings.Repeat("O", sc.BufMax+64) + "\n\ndata: never\n\n"
+				obs.ReadErrs[a] = bufio.ErrTooLong
 			}
 			cr := &mon.ChunkReader{Data: sp.Stream, Cuts: sp.Cuts}
 			if sp.ByteReads {
@@ -314,6 +332,7 @@ func runClient(t *testing.T, sc *cScript) (obs *cObs) {
 			}
 		}
 		retryIdx := 0
+		var helpers sync.WaitGroup
 		cl.OnRetry = func(err error, d time.Duration) {
 			obs.Retries = append(obs.Retries, cRetryObs{Err: err, D: d, VTime: time.Since(base)})
 			if len(obs.Retries) > len(sc.Attempts)+8 {
@@ -322,7 +341,9 @@ func runClient(t *testing.T, sc *cScript) (obs *cObs) {
 				cancelFn()
 			}
 			if sc.CancelInWait[attempt] {
+				helpers.Add(1)
 				go func() {
+					defer helpers.Done()
 					time.Sleep(d / 2)
 					cancel()
 				}()
@@ -330,6 +351,9 @@ func runClient(t *testing.T, sc *cScript) (obs *cObs) {
 			retryIdx++
 		}
 		conn := cl.NewConnection(req)
+		if sc.BufMax > 0 {
+			conn.Buffer(nil, sc.BufMax)
+		}
 		conn.SubscribeToAll(func(e sse.Event) {
 			obs.Events = append(obs.Events, cEventObs{Attempt: attempt, Ev: obsEvent{strings.Clone(e.LastEventID), strings.Clone(e.Type), strings.Clone(e.Data)}})
 		})
@@ -339,6 +363,7 @@ func runClient(t *testing.T, sc *cScript) (obs *cObs) {
 		obs.Ret = conn.Connect()
 		obs.RetVTime = time.Since(base)
 		obs.CtxErrAtEnd = ctx.Err()
+		helpers.Wait() // the harness's own goroutines must be gone before the bubble ends
 	})
 	return obs
 }
@@ -402,7 +427,7 @@ func interpretAttempt(a cAttempt, lastID string) streamOutcome {
 	}
 	o := ref.Interpret(data, ref.Opts{Adapt: true, Conn: true, InitialID: lastID})
 	so := streamOutcome{LastID: lastID, Retries: o.Retries}
-	abnormal := cut || a.End == "rerr" || a.End == "rerr_eof"
+	abnormal := cut || a.End == "rerr" || a.End == "rerr_eof" || a.Oversized
 	for _, e := range o.Events {
 		if e.AtEOF && abnormal {
 			continue
@@ -413,7 +438,7 @@ func interpretAttempt(a cAttempt, lastID string) streamOutcome {
 	switch {
 	case cut:
 		so.EndKind = "cancel"
-	case a.End == "rerr" || a.End == "rerr_eof":
+	case a.End == "rerr" || a.End == "rerr_eof" || a.Oversized:
 		so.EndKind = "rerr"
 	case o.UnexpectedEOF:
 		so.EndKind = "ueof"
@@ -506,6 +531,10 @@ func judgeClient(sc *cScript, obs *cObs, prop string) (out []jv) {
 		a := sc.Attempts[i]
 		if a.CancelInRT {
 			result = "ctx"
+			if a.RTErrAfterCancel {
+				result = "ctx_or_terr"
+				lastAttempt = i
+			}
 			break
 		}
 		vt := ao.VTime + time.Duration(a.Latency)
@@ -685,6 +714,16 @@ func judgeClient(sc *cScript, obs *cObs, prop string) (out []jv) {
 	var ce *sse.ConnectionError
 	isCE := errors.As(obs.Ret, &ce)
 	switch result {
+	case "ctx_or_terr":
+		// the context ended and the transport failed on its own account at the same time: both
+		// reasons are true; the context's error or a *ConnectionError for the transport error
+		wantCtx := error(context.Canceled)
+		if sc.Deadline {
+			wantCtx = context.DeadlineExceeded
+		}
+		if obs.Ret != wantCtx && !(isCE && errors.Is(obs.Ret, obs.TErrs[lastAttempt])) {
+			out = append(out, jvf([]string{"bare_error_returned"}, "the context ended while RoundTrip failed with a transport error: Connect returned %v (%T), which is neither the context's error nor a *ConnectionError", obs.Ret, obs.Ret))
+		}
 	case "ctx":
 		wantCtx := error(context.Canceled)
 		if sc.Deadline {
